@@ -28,14 +28,15 @@ theorem refines_init : Refines {} {} := by
   refine ⟨?_, rfl, rfl, by simp⟩
   constructor <;> simp [Lemmas.KeysNodup, KV.get, AG.getV, AG.getE, edgeAt]
 
-/-- One operation.  PARTIAL: holds under `NoReadd a op`, which
-    (1) excludes the region of the open finding C03-edge-readd (a valid edge of an addE/bulk batch
-        re-using the id of a live edge, or of an earlier valid edge of the batch, with different
-        from/to/label), where the full statement is false (`edge_readd_witness`); and
-    (2) for `addGraph g` with a valid name assumes `GoodName g` (the first dot-component of
-        `g.v.label` / `g.e.label` is `g`), a fact about `String.splitOn` on dot-free names that is
-        true for every valid name but not proved in Lean.
-    What is missing for full strength: (1) a repair of kvgraph's insertEdge, (2) that string lemma. -/
+/-- One operation.  PARTIAL: holds under `NoReadd a op`, which excludes exactly the region of the
+    open finding C03-edge-readd (a valid edge of an addE/bulk batch re-using the id of a live edge,
+    or of an earlier valid edge of the batch, with different from/to/label), where the full
+    statement is false (`edge_readd_witness`).  Every other operation — graph creation and deletion,
+    vertex writes, deletes, edges re-added with the same endpoints and label — satisfies `NoReadd`
+    trivially (`noReadd_only_edges`).  (The string fact the earlier version assumed for addGraph,
+    that `strings.Split(field, ".")[0]` of a graph's label field is the graph name, is now proved
+    for every valid name: `Lemmas.goodName_of_valid`.)
+    What is missing for full strength: a repair of kvgraph's insertEdge. -/
 theorem step_refines_partial {s : KState} {a : AG} (h : Refines s a) (op : Op) (hop : NoReadd a op) :
     Refines (step s op).1 (specStep a op).1 ∧ (step s op).2 = (specStep a op).2 := by
   cases op with
@@ -53,7 +54,15 @@ theorem step_refines_partial {s : KState} {a : AG} (h : Refines s a) (op : Op) (
   | delV g id => exact Lemmas.delV_refines h g id
   | delE g eid => exact Lemmas.delE_refines h g eid
 
-/-- Histories.  PARTIAL for the same two reasons as `step_refines_partial`: the side condition is
+/-- The side condition constrains edge writes only. -/
+theorem noReadd_only_edges (a : AG) (op : Op)
+    (h : ∀ g es, op ≠ .addE g es) (h' : ∀ g xs, op ≠ .bulk g xs) : NoReadd a op := by
+  cases op with
+  | addE g es => exact absurd rfl (h g es)
+  | bulk g xs => exact absurd rfl (h' g xs)
+  | _ => simp [NoReadd, noReadd]
+
+/-- Histories.  PARTIAL for the same reason as `step_refines_partial`: the side condition is
     required of every operation of the history, at the abstract state reached before it. -/
 theorem history_refines_partial (ops : List Op) :
     ∀ {s : KState} {a : AG}, Refines s a → NoReaddHist a ops → Refines (run s ops) (specRun a ops) := by
@@ -143,7 +152,7 @@ def goodOps : List Op :=
 
 theorem goodOps_ok : NoReaddHist {} goodOps := by
   unfold goodOps
-  rw [Lemmas.noReaddHist_addGraph Lemmas.goodName_g1, Lemmas.noReaddHist_addGraph Lemmas.goodName_g2]
+  rw [Lemmas.noReaddHist_addGraph "g1", Lemmas.noReaddHist_addGraph "g2"]
   with_unfolding_all decide
 
 /-- non-vacuity of `history_refines_partial`: the side conditions hold on `goodOps`, hence the
@@ -155,7 +164,7 @@ example : Refines (run {} goodOps) (specRun {} goodOps) :=
     with it (`edge_readd_witness`) -/
 example : NoReaddHist {} (witnessOps.take 3) := by
   show NoReaddHist {} [.addGraph "g1", _, _]
-  rw [Lemmas.noReaddHist_addGraph Lemmas.goodName_g1]
+  rw [Lemmas.noReaddHist_addGraph "g1"]
   with_unfolding_all decide
 
 /-! ### corollaries stated outright -/
